@@ -59,13 +59,34 @@ func c17FillI(i int) int64 {
 }
 
 func c17List(idx []int, strs bool, padFront, padBack int, fillBase int) interface{} {
+	return c17ListU(nil, idx, strs, padFront, padBack, fillBase)
+}
+
+// c17Collide: string universes whose first two elements have the same hash
+// under a common 32-bit string hash (FNV-1a, Java/31, CRC-32, djb2): a lookup
+// structure keyed by such a hash must still tell them apart.
+var c17Collide = [][]string{
+	{"costarring", "liquid", "declinate"},
+	{"altarage", "zinke", "macallums"},
+	{"declinate", "macallums", "liquid"},
+	{"Aa", "BB", "AaAa"},
+	{"AaAa", "BBBB", "AaBB"},
+	{"plumless", "buckeroo", "hetairas"},
+	{"hetairas", "mentioner", "heliotropes"},
+	{"heliotropes", "neurospora", "mentioner"},
+}
+
+func c17ListU(u []string, idx []int, strs bool, padFront, padBack int, fillBase int) interface{} {
+	if u == nil {
+		u = c17StrU
+	}
 	if strs {
 		var l []string
 		for i := 0; i < padFront; i++ {
 			l = append(l, c17FillS(fillBase+i))
 		}
 		for _, e := range idx {
-			l = append(l, c17StrU[e])
+			l = append(l, u[e])
 		}
 		for i := 0; i < padBack; i++ {
 			l = append(l, c17FillS(fillBase+padFront+i))
@@ -151,19 +172,29 @@ func c17(r *rep.Run) {
 		totals = []int{50, 97, 98, 99, 100, 101, 102, 150, 199, 200, 201, 1000}
 		r.SetBudget(1800e9)
 	}
-	r.Rule = "every pair of lists of length <= 3 over a 3-element universe (all duplicates/orders) for int64 and for string elements; each pair unpadded and padded with disjoint filler (front / back / both sides of the core) to every total length in the list around the 100-element switch, with the left and with the right list the longer one; each operand passed as a literal and as a variable (4 forms), optimisations on and off; typed-empty lists of both element types and the empty literal in either position; every element-type mismatch. `in`: every probe (universe elements, a filler element, an absent value, wrong-typed probes) against every such list passed as literal, variable and pre-built set. Oracle: map-based set intersection/membership; overlap(A,B) == overlap(B,A); mismatches are errors. non-trivial = evaluations whose two lists total >= 100 elements"
+	r.Rule = "every pair of lists of length <= 3 over a 3-element universe (all duplicates/orders) for int64 and for string elements; each pair unpadded and padded with disjoint filler (front / back / both sides of the core) to every total length in the list around the 100-element switch, with the left and with the right list the longer one; each operand passed as a literal and as a variable (4 forms), optimisations on and off; typed-empty lists of both element types and the empty literal in either position; every element-type mismatch; 8 further string universes whose elements collide under common 32-bit string hashes (lists of length <= 2); every history (depth 3) of 3 contents written in place into ONE list-variable buffer of length 3..256 under `in` and `overlap`. `in`: every probe (universe elements, a filler element, an absent value, wrong-typed probes) against every such list passed as literal, variable and pre-built set. Oracle: map-based set intersection/membership; overlap(A,B) == overlap(B,A); mismatches are errors. non-trivial = evaluations whose two lists total >= 100 elements"
 	r.Assume = []string{"universe of 3 elements of very different shape (1/64/70-byte strings; 1, min, max) + disjoint filler of mixed lengths, magnitudes and signs; other element values are not explored"}
 	r.Cov["total_lengths"] = totals
 	lists := listsOver(3, maxLen)
 	type job struct {
-		a, b  []int
-		strs  bool
+		a, b []int
+		strs bool
+		u    []string // string universe (nil: the default one)
 	}
 	var jobs []job
 	for _, strs := range []bool{false, true} {
 		for _, a := range lists {
 			for _, b := range lists {
-				jobs = append(jobs, job{a, b, strs})
+				jobs = append(jobs, job{a, b, strs, nil})
+			}
+		}
+	}
+	for _, u := range c17Collide {
+		for _, a := range lists {
+			for _, b := range lists {
+				if len(a) <= 2 && len(b) <= 2 && len(a)+len(b) > 0 {
+					jobs = append(jobs, job{a, b, true, u})
+				}
 			}
 		}
 	}
@@ -179,7 +210,7 @@ func c17(r *rep.Run) {
 			a, b interface{}
 			desc string
 		}
-		vs := []variant{{c17List(j.a, j.strs, 0, 0, 0), c17List(j.b, j.strs, 0, 0, 100), "unpadded"}}
+		vs := []variant{{c17ListU(j.u, j.a, j.strs, 0, 0, 0), c17ListU(j.u, j.b, j.strs, 0, 0, 100), "unpadded"}}
 		for _, tot := range totals {
 			pad := tot - len(j.a) - len(j.b)
 			if pad < 0 {
@@ -193,18 +224,18 @@ func c17(r *rep.Run) {
 					pf, pb = pad/2, pad-pad/2
 				}
 				vs = append(vs,
-					variant{c17List(j.a, j.strs, pf, pb, 0), c17List(j.b, j.strs, 0, 0, 5000), sprintf("total %d, left longer, filler %d/%d", tot, pf, pb)},
-					variant{c17List(j.a, j.strs, 0, 0, 0), c17List(j.b, j.strs, pf, pb, 5000), sprintf("total %d, right longer, filler %d/%d", tot, pf, pb)})
+					variant{c17ListU(j.u, j.a, j.strs, pf, pb, 0), c17ListU(j.u, j.b, j.strs, 0, 0, 5000), sprintf("total %d, left longer, filler %d/%d", tot, pf, pb)},
+					variant{c17ListU(j.u, j.a, j.strs, 0, 0, 0), c17ListU(j.u, j.b, j.strs, pf, pb, 5000), sprintf("total %d, right longer, filler %d/%d", tot, pf, pb)})
 			}
 			// both lists padded in FRONT by the same amount with different filler: common elements sit at the same index
 			if pad >= 2 {
-				vs = append(vs, variant{c17List(j.a, j.strs, pad/2, 0, 0), c17List(j.b, j.strs, pad/2, 0, 5000), sprintf("total %d, index-aligned cores", tot)})
+				vs = append(vs, variant{c17ListU(j.u, j.a, j.strs, pad/2, 0, 0), c17ListU(j.u, j.b, j.strs, pad/2, 0, 5000), sprintf("total %d, index-aligned cores", tot)})
 				// a list against itself
-				self := c17List(j.a, j.strs, pad/2, pad-pad/2, 0)
+				self := c17ListU(j.u, j.a, j.strs, pad/2, pad-pad/2, 0)
 				vs = append(vs, variant{self, self, sprintf("total %d, a list against itself", 2*lenOf(self))})
 			}
 			// both padded (balanced)
-			vs = append(vs, variant{c17List(j.a, j.strs, pad/2, 0, 0), c17List(j.b, j.strs, 0, pad-pad/2, 5000), sprintf("total %d, both padded", tot)})
+			vs = append(vs, variant{c17ListU(j.u, j.a, j.strs, pad/2, 0, 0), c17ListU(j.u, j.b, j.strs, 0, pad-pad/2, 5000), sprintf("total %d, both padded", tot)})
 		}
 		for vi, v := range vs {
 			forms := [][2]bool{{true, true}}
@@ -234,7 +265,9 @@ func c17(r *rep.Run) {
 		}
 		// in: every probe against list A (unpadded and padded variants of A)
 		var probes []interface{}
-		if j.strs {
+		if j.u != nil {
+			probes = []interface{}{j.u[0], j.u[1], j.u[2], "zz"}
+		} else if j.strs {
 			probes = []interface{}{c17StrU[0], c17StrU[1], c17StrU[2], c17FillS(1), c17FillS(3), "zz", strings.Repeat("b", 63), int64(1)}
 		} else {
 			probes = []interface{}{c17IntU[0], c17IntU[1], c17IntU[2], c17FillI(1), c17FillI(2), int64(0), "a"}
@@ -249,7 +282,7 @@ func c17(r *rep.Run) {
 					if where == 1 {
 						pf, pb = 0, pad
 					}
-					la := c17List(j.a, j.strs, pf, pb, 0)
+					la := c17ListU(j.u, j.a, j.strs, pf, pb, 0)
 					var set interface{}
 					if j.strs {
 						m := map[string]struct{}{}
@@ -334,6 +367,82 @@ func c17(r *rep.Run) {
 				}
 			}
 		}
+	}
+	// a list variable whose backing array the caller reuses: the SAME slice
+	// object bound in successive evaluations with different contents, every
+	// history of 3 contents up to depth 3, one compiled program per history
+	{
+		h := hs[0]
+		var hist int64
+		for _, n := range []int{3, 63, 64, 65, 99, 100, 101, 128, 150, 256} {
+			for _, strs := range []bool{false, true} {
+				contents := make([]interface{}, 3)
+				for ci := range contents {
+					// content ci holds universe element ci (only) somewhere in the middle
+					contents[ci] = c17List([]int{ci}, strs, n/2, n-n/2-1, 10000*(ci+1))
+				}
+				var probes []interface{}
+				var other interface{}
+				if strs {
+					probes = []interface{}{c17StrU[0], c17StrU[1], c17StrU[2], c17FillS(10000 + 1)}
+					other = []string{c17StrU[0], c17FillS(20000 + 2)}
+				} else {
+					probes = []interface{}{c17IntU[0], c17IntU[1], c17IntU[2], c17FillI(10000 + 1)}
+					other = []int64{c17IntU[0], c17FillI(20000 + 2)}
+				}
+				for _, o := range opts {
+					for code := 0; code < 27; code++ {
+						seq := []int{code % 3, code / 3 % 3, code / 9}
+						cfg := h.NewConfig(vars, o)
+						eIn, err1 := h.Compile(cfg, "(in va vb)", 0)
+						eOv, err2 := h.Compile(cfg, "(overlap vb "+c17Lit(other)+")", 0)
+						eOv2, err3 := h.Compile(cfg, "(overlap "+c17Lit(other)+" vb)", 0)
+						if err1 != nil || err2 != nil || err3 != nil {
+							r.Violate("compile", "reuse", sprintf("list programs do not compile: %v %v %v", err1, err2, err3), nil)
+							continue
+						}
+						var buf interface{}
+						if strs {
+							buf = make([]string, n)
+						} else {
+							buf = make([]int64, n)
+						}
+						for step, ci := range seq {
+							if strs {
+								copy(buf.([]string), contents[ci].([]string))
+							} else {
+								copy(buf.([]int64), contents[ci].([]int64))
+							}
+							d := map[string]interface{}{"list_length": n, "strings": strs, "contents_history": fmt.Sprint(seq[:step+1]), "config": o.String()}
+							for _, p := range probes {
+								f := drive.NewFetcher(h, vars, o)
+								f.Vals[0], f.Vals[1] = p, buf
+								h.Reset()
+								got := h.Eval(eIn, f)
+								atomic.AddInt64(&evals, 1)
+								want, werr := ref.Builtin("in", []interface{}{p, contents[ci]})
+								if !drive.SameOutcome(got, refOut(want, werr)) {
+									r.Violate("in-wrong", fmt.Sprint("reuse", n, strs), sprintf("(in %v L) = %s but membership is %v, after the caller rewrote the %d-element list variable's buffer in place", p, got, want, n), d)
+								}
+							}
+							for _, e := range []*eval.Expr{eOv, eOv2} {
+								f := drive.NewFetcher(h, vars, o)
+								f.Vals[1] = buf
+								h.Reset()
+								got := h.Eval(e, f)
+								atomic.AddInt64(&evals, 1)
+								want, werr := ref.Builtin("overlap", []interface{}{contents[ci], other})
+								if !drive.SameOutcome(got, refOut(want, werr)) {
+									r.Violate("overlap-wrong", fmt.Sprint("reuse", n, strs), sprintf("overlap of the rewritten %d-element list variable with %s = %s, expected %v", n, c17Lit(other), got, want), d)
+								}
+							}
+						}
+						hist++
+					}
+				}
+			}
+		}
+		r.Cov["reused_buffer_histories"] = hist
 	}
 	// mismatches and odd operands
 	c := &c17eval{h: hs[0], vars: vars, n: &evals}
